@@ -239,6 +239,7 @@ func checkC34(w *World, r *Run) {
 		r.Check(aoOK, ruleArgs, "CORS middleware: Access-Control-Allow-Origin value", cl.Pos(), "the request origin, or \"*\"", "Access-Control-Allow-Origin is set to something other than the matched request origin or \"*\"")
 	}
 	checkC34PerHeaderFlag(w, r)
+	checkCorsCacheInvalidatesAlways(w, r)
 	checkC34WildcardOverlap(w, r)
 	r.NotCovered("wildcardMatch semantics over all patterns/origins (runtime strings); rule normalisation; Vary handling")
 }
